@@ -7,14 +7,18 @@ E == Rec[l]
 Z(e) == e.args.zone
 St(e) == Get(e.args, "st", [x |-> 0])
 Largest(e) == LET u == Get(St(e), "largest", "auto") IN IF u = "auto" THEN "hour" ELSE u
+\* largestUnit auto / absent: the larger of hour and the smallest unit
+LargestR(e) == LET u == Get(St(e), "largest", "auto") IN IF u = "auto" THEN UnitMax("hour", St(e).smallest) ELSE u
 Expected(e) ==
   CASE e.op = "Zoned.fromLocal" -> Disambiguate(Z(e), e.args.w, e.args.dis)
     [] e.op = "Zoned.wall" -> Ok([w |-> Wall(Z(e), e.args.t), off |-> OffsetAt(Z(e), e.args.t)])
     [] e.op = "Zoned.fromStr" -> Interpret(Z(e), e.args.w, e.args.offk, e.args.off, e.args.dis, e.args.offopt, TRUE)
     [] e.op = "Zoned.add" -> ZAdd(Z(e), e.args.t, e.args.dur, Get(e.args, "ovf", "constrain"))
     [] e.op = "Zoned.subtract" -> ZSub(Z(e), e.args.t, e.args.dur, Get(e.args, "ovf", "constrain"))
-    [] e.op = "Zoned.until" -> ZUntil(Z(e), e.args.t, e.args.other, Largest(e))
-    [] e.op = "Zoned.since" -> ZSince(Z(e), e.args.t, e.args.other, Largest(e))
+    [] e.op \in {"Zoned.until", "Zoned.since"} ->
+         IF Has(St(e), "smallest")
+         THEN ZDiffRounded(Z(e), e.args.t, e.args.other, LargestR(e), St(e).smallest, Get(St(e), "inc", 1), Get(St(e), "mode", "trunc"), e.op = "Zoned.since")
+         ELSE IF e.op = "Zoned.until" THEN ZUntil(Z(e), e.args.t, e.args.other, Largest(e)) ELSE ZSince(Z(e), e.args.t, e.args.other, Largest(e))
     [] e.op = "Zoned.withPlainTime" -> ZWithPlainTime(Z(e), e.args.t, e.args.sod)
     [] e.op = "Zoned.startOfDay" -> Ok(ZStartOfDay(Z(e), e.args.t))
     [] e.op = "ZDur.round" -> ZRoundRel(Z(e), e.args.t, e.args.recv, St(e).largest, St(e).smallest, St(e).inc, St(e).mode)
